@@ -19,6 +19,7 @@ DECLINED = ["map semantics (last value wins, independence of keys/units) over ar
 ASSUMPTIONS = ["X1 memory orders", "keys are never freed while values exist (documented API restriction)"]
 RULES_DOC = dict(common.SHARED_DOC)
 RULES_DOC["X4"] = common.X4_DOC
+RULES_DOC["R5"] = "key identities are disjoint: statically initialised (internal) keys have distinct ids below the first dynamic id, and ABT_key_create hands out ids from a counter that starts above them (a user key never aliases the migration / stackable-scheduler key)"
 RULES_DOC.update({
     "R1": "element initialised before its release-store link; acquire-load traversal; table pointer published by release store / reset on failure",
     "R2": "append only after a second scan of the chain under the table lock (thread-safe variant); lock released on every exit",
@@ -285,11 +286,60 @@ def rule_R4(P, rep):
     adv = [canon.expr(F, rh) for b, i, lh, rh in F.stores() if rh is not None and _is_var_of_type(F, lh, ELEM_T)]
     rep.ob("R4", "element traversal advances through p_elem->p_next", any("ABTI_ktelem::p_next" in a for a in adv), str(adv), loc=F.file,
            site="ktable_free/advance")
+    # ... for every element of every chain: the advance is reached on every iteration (its only governing
+    # conditions are the loops) and nothing leaves a loop early (a `break` would skip the rest of the chain
+    # and their destructors)
+    from abtverif import ctrldep
+    advs = [i for _b, i in F.calls() if (F.nodes[i].get("fn") or "").startswith("ABTD_atomic_") and "_load_" in F.nodes[i]["fn"] and
+            F.nodes[i]["a"] and F.field_of(F.nodes[i]["a"][0]) == ("ABTI_ktelem", "p_next")]
+    rep.need(len(advs) >= 1, "ktable_free: no load of ABTI_ktelem::p_next")
+    for i in advs:
+        bad, head = ctrldep.per_element(F, i, advs)
+        rep.ob("R4", "ktable_free visits every element of a chain (no early exit from the walk)", not bad and head is not None,
+               "; ".join(bad) if bad else "the advance is not inside a loop", loc=F.loc(i), site="ktable_free/every-element")
     sub = type(rep)(rep.prop, rep.tier, rep.variant)
     C03.rule_R5(P, sub)
     for o in sub.obligations:
         if o["instance"].startswith("thread_free"):
             rep.ob("R4", o["instance"], o["ok"], o["detail"], o["loc"], site="R4/" + o["instance"][:120])
+
+
+def rule_R5(P, rep):
+    static_ids = {}
+    for (file, name), g in sorted(P.globals.items()):
+        if g.get("t") != "ABTI_key" or not g.get("nodes"):
+            continue
+        nodes = g["nodes"]
+        il = nodes[g["init"]] if isinstance(g.get("init"), int) and g["init"] < len(nodes) else None
+        if not il or il.get("k") != "ilist" or len(il["e"]) < 2:
+            continue
+        idn = nodes[il["e"][1]]
+        static_ids["%s:%s" % (file, name)] = idn.get("cv")
+    rep.need(len(static_ids) >= 2, "only %d statically initialised keys found" % len(static_ids))
+    vals = list(static_ids.values())
+    rep.ob("R5", "internal keys %s have distinct constant ids" % sorted(static_ids), None not in vals and len(set(vals)) == len(vals),
+           str(static_ids), loc="src/thread.c", site="key-ids/static-distinct")
+    # the dynamic counter: the global passed to the fetch-add whose result becomes ABTI_key::id in ABT_key_create
+    F = P.fn("ABT_key_create", "src/key.c")
+    ctr = None
+    for _b, i, lh, rh in F.stores():
+        if rh is None or F.field_of(lh) != ("ABTI_key", "id"):
+            continue
+        rn = F.nodes[F.strip(rh)]
+        if rn.get("k") == "call" and "fetch_add" in (rn.get("fn") or ""):
+            an = F.nodes[F.strip(rn["a"][0])]
+            inner = F.nodes[F.strip(an["e"])] if an.get("k") == "un" and an["op"] == "&" else None
+            step = F.nodes[F.strip(rn["a"][1])].get("cv")
+            if inner is not None and inner.get("k") == "ref" and inner.get("dk") == "global":
+                ctr = (inner["n"], step, rn["fn"])
+    rep.need(ctr is not None, "ABT_key_create does not take the id from an atomic fetch-add of a global counter")
+    g = [g for (file, name), g in P.globals.items() if name == ctr[0] and file == "src/key.c" and g.get("nodes")]
+    rep.need(g, "initialiser of %s not found" % ctr[0])
+    start = [n.get("cv") for n in g[0]["nodes"] if n and n.get("k") == "int"]
+    first = start[-1] if start else None
+    ok = first is not None and None not in vals and first > max(vals) and ctr[1] == 1
+    rep.ob("R5", "dynamic key ids start at %s (fetch-add returns the old value, step %s): above every internal id" % (first, ctr[1]), ok,
+           "first dynamic id %s, internal ids %s" % (first, sorted(vals)), loc="src/key.c", site="key-ids/dynamic-start")
 
 
 def run(P, rep, tier):
@@ -299,3 +349,4 @@ def run(P, rep, tier):
     rule_R1_R2(P, rep)
     rule_R3(P, rep)
     rule_R4(P, rep)
+    rule_R5(P, rep)
